@@ -197,12 +197,7 @@ func runC15(r *Run) {
 	r.Floor("R1", "store-open call sites", nOpen, 30)
 
 	// ---- R2 ----
-	confirmed := map[string]map[string]bool{
-		"evm":           {"(*x/evm/keeper.Keeper).SetBalance": true},
-		"erc20":         {"(x/erc20/keeper.Keeper).convertERC20NativeToken": true, "(x/erc20/keeper.Keeper).convertCoinNativeERC20": true, "(x/erc20/keeper.Keeper).PostTxProcessing": true},
-		"liquidvesting": {"(x/liquidvesting/keeper.Keeper).Liquidate": true, "(x/liquidvesting/keeper.Keeper).Redeem": true},
-		"coinomics":     {"(x/coinomics/keeper.Keeper).MintCoins": true},
-	}
+	seenMB := map[string]int{}
 	nMB := 0
 	for _, s := range mintBurnSites(P) {
 		owner := fnID(outermost(s.Fn))
@@ -218,7 +213,9 @@ func runC15(r *Run) {
 			r.Check(ok, "R2", inst, where, "forwards its own module-name parameter (bank override)", s.Kind+" with a non-constant module account name")
 			continue
 		}
-		r.Check(confirmed[s.Module][owner], "R2", inst+"/"+s.Module, where, "confirmed site", fmt.Sprintf("%s for module account %q from %s is not a confirmed minting/burning site", s.Kind, s.Module, owner))
+		seenMB[inst+"/"+s.Module]++
+		want := confirmedMintBurn[s.Module][owner][s.Kind]
+		r.Check(want > 0 && seenMB[inst+"/"+s.Module] <= want, "R2", inst+"/"+s.Module, where, "confirmed site", fmt.Sprintf("%s for module account %q from %s is not a confirmed %s site of that account, or is an additional call site in a confirmed function (confirmed: %s)", s.Kind, s.Module, owner, s.Kind, confirmedSites(s.Module)))
 	}
 	r.Floor("R2", "mint/burn call sites", nMB, 9)
 
